@@ -25,7 +25,9 @@ Record attrs := MkAttrs {
   at_bm : blend;          (* blend function used by _apply_source (pass-through groups: normal) *)
   at_clip : bool;         (* record.clipping == NON_BASE *)
   at_mask : option maskd;
-  at_ko : bool            (* Tag.KNOCKOUT_SETTING *) }.
+  at_ko : bool;           (* Tag.KNOCKOUT_SETTING *)
+  at_den : positive       (* scale of the layer's planes (colour, transparency, mask): 255 for 8-bit documents,
+                             65535 for 16-bit; a 32-bit float plane holds value/at_den *) }.
 
 Inductive layer :=
 | Px (rc : rect) (chans : list (list Z)) (alpha : list Z) (at_ : attrs)      (* planes row-major, 0..255 *)
@@ -59,8 +61,11 @@ Notation F := (F O).
 
 Definition byte (z : Z) : F := fdiv O (fofZ O z) (fofZ O 255).
 
-Definition plane_at (data : list Z) (w : Z) (i j : Z) : F :=
-  byte (nth (Z.to_nat (i * w + j)) data 0).
+(* numpy_io._parse_array: plane value / 255 (8 bit), / 65535 (16 bit), the float itself (32 bit) *)
+Definition pval (den : positive) (z : Z) : F := fdiv O (fofZ O z) (fofZ O (Zpos den)).
+
+Definition plane_at (den : positive) (data : list Z) (w : Z) (i j : Z) : F :=
+  pval den (nth (Z.to_nat (i * w + j)) data 0).
 
 (* _get_mask (raster part) and _get_const *)
 Definition factors_at (vp : rect) (x y : Z) (at_ : attrs) : factors O :=
@@ -73,7 +78,7 @@ Definition factors_at (vp : rect) (x y : Z) (at_ : attrs) : factors O :=
           let w := rwidth (mk_rect mk) in
           let m := match mk_data mk with
                    | [] => f1      (* Layer.numpy('mask') is None for an empty plane: shape stays 1.0 *)
-                   | _ => paste vp (mk_rect mk) (plane_at (mk_data mk) w) (byte (mk_bg mk)) (y - vt) (x - vl)
+                   | _ => paste vp (mk_rect mk) (plane_at (at_den at_) (mk_data mk) w) (byte (mk_bg mk)) (y - vt) (x - vl)
                    end in
           (m, match mk_density mk with None => f1 | Some d => byte d end)
     | None => (f1, f1)
@@ -91,8 +96,8 @@ Fixpoint sample_layer (vp : rect) (x y : Z) (k : nat) (L : layer) (clips : list 
   match L with
   | Px rc chans alpha _ =>
       let w := rwidth rc in
-      let col := paste vp rc (plane_at (nth k chans []) w) f1 (y - vt) (x - vl) in
-      let sh := paste vp rc (plane_at alpha w) f0 (y - vt) (x - vl) in
+      let col := paste vp rc (plane_at (at_den at_) (nth k chans []) w) f1 (y - vt) (x - vl) in
+      let sh := paste vp rc (plane_at (at_den at_) alpha w) f0 (y - vt) (x - vl) in
       [Leaf col sh fa B (at_ko at_) clips]
   | Gr pass ch _ =>
       let vp' := intersect vp (bbox_of L) in
